@@ -287,9 +287,21 @@ func runCheck(cmd, prop, tier, repo, root, only string, keep, verbose, writeExpe
 				// stage 0: without the quantified spec-function axioms (fewer assumptions: still a proof)
 				o0 := *o
 				o0.NoQAxioms = true
+				o0.NoFAxioms = true
 				if r0 := quickSolve(buildQuery(&o0, true, false), smtDir, o.Name+"-ground", 3); r0.Result == "unsat" {
 					r0.Solver += "(ground)"
 					best, allr = r0, []SolverResult{r0}
+				}
+			}
+			if best.Result != "unsat" && len(o.Ctx.faxioms) > 0 && tier != "thorough" {
+				// stage 0b: without the function axioms of pure functions (fewer assumptions: still a proof;
+				// a `sat` here is not a counterexample, the axioms may exclude it)
+				o0 := *o
+				o0.NoFAxioms = true
+				r0, a0 := discharge(buildQuery(&o0, true, false), smtDir, o.Name+"-nofax", max(3, timeout/3), false)
+				if r0.Result == "unsat" {
+					r0.Solver += "(no function axioms)"
+					best, allr = r0, a0
 				}
 			}
 			if best.Result != "unsat" {
